@@ -442,3 +442,61 @@ func CanReach(a, b ssa.Instruction) bool {
 	}
 	return false
 }
+
+// ---------------------------------------------------------------------------
+// select statements
+
+// SelectCase is one (select, case index) pair.
+type SelectCase struct {
+	Sel   *ssa.Select
+	Index int
+}
+
+// State returns the case's channel operation.
+func (s SelectCase) State() *ssa.SelectState { return s.Sel.States[s.Index] }
+
+// selectIndexTest matches cond = (extract sel #0 == k).
+func selectIndexTest(cond ssa.Value) (sel *ssa.Select, k int, ok bool) {
+	b, isBin := cond.(*ssa.BinOp)
+	if !isBin || b.Op.String() != "==" {
+		return nil, 0, false
+	}
+	ex, isEx := b.X.(*ssa.Extract)
+	if !isEx || ex.Index != 0 {
+		return nil, 0, false
+	}
+	s, isSel := ex.Tuple.(*ssa.Select)
+	if !isSel {
+		return nil, 0, false
+	}
+	kk, isC := ConstInt(b.Y)
+	if !isC {
+		return nil, 0, false
+	}
+	return s, int(kk), true
+}
+
+// SelectGuards returns the select cases that dominate block b (the block runs
+// only if that case was chosen).
+func SelectGuards(b *ssa.BasicBlock) []SelectCase {
+	var out []SelectCase
+	for _, g := range GuardsOf(b) {
+		if !g.True {
+			continue
+		}
+		if s, k, ok := selectIndexTest(g.Cond); ok && k < len(s.States) {
+			out = append(out, SelectCase{s, k})
+		}
+	}
+	return out
+}
+
+// SelectBranch reports, for a branch edge, which select case it commits to
+// (true edge of an index test).
+func SelectBranch(br *ssa.If, succIdx int) (SelectCase, bool) {
+	s, k, ok := selectIndexTest(br.Cond)
+	if !ok || succIdx != 0 || k >= len(s.States) {
+		return SelectCase{}, false
+	}
+	return SelectCase{s, k}, true
+}
